@@ -302,12 +302,17 @@ pub fn suite_faults(ctx: &Ctx, thorough: bool) {
             let add_q = |q: &str| -> String {
                 if has_quals { format!("{}&{}{}", &good[..upto], q, &good[upto..]) } else { format!("{}?{}{}", &good[..upto], q, &good[upto..]) }
             };
+            // a key repeated in the other letter case, for the first and the last letter of the alphabet and next to a digit
+            for q in ["zip=1&Zip=2", "Zip=1&zip=2", "siZe=1&size=2", "Az=1&aZ=2", "z9=1&Z9=2", "a=1&A=2"] {
+                cases.push((add_q(q), ErrKind::InvalidQualifier, "qualifier fault"));
+            }
             for q in ["novalue", "=v", "k!=v", "%6B=v", "k%20=v", "é=v", "q1=a&Q1=b", "q1=a&q1=a"] {
                 cases.push((add_q(q), ErrKind::InvalidQualifier, "qualifier fault"));
             }
             if !t.quals.iter().any(|(k, _)| k.eq_ignore_ascii_case("checksum")) {
                 for c in ["checksum=sha1", "checksum=sha1:abc", "checksum=sha1:zz", "checksum=a:00,A:11", "CHECKSUM=a:00,,b:11", "checksum=%C7%85:00,%C7%86:11",
-                          "checksum=%C3%86A:00,%C3%A6a:11", "checksum=A%C3%86:00,a%C3%A6:11", "checksum=x%C3%86Y:00,X%C3%A6y:11", "checksum=a:00,b:11,a:22", "checksum=a:0"] {
+                          "checksum=%C3%86A:00,%C3%A6a:11", "checksum=A%C3%86:00,a%C3%A6:11", "checksum=x%C3%86Y:00,X%C3%A6y:11", "checksum=a:00,b:11,a:22", "checksum=a:0",
+                          "checksum=md5:%2Ba%2BB", "checksum=md5:-1", "checksum=md5:0x", "checksum=md5:%2B1"] {
                     cases.push((add_q(c), ErrKind::InvalidQualifier, "malformed checksum"));
                 }
             }
@@ -417,6 +422,18 @@ fn segments_over(ctx: &Ctx, pieces: &[&str], n: usize) {
         let mut list = vec![];
         for _ in 0..k { list.push(pieces[idx % pieces.len()]); idx /= pieces.len(); }
         let joined = list.join("/");
+        // the typed PURL reports the same structure: an escaped '/' in the NAME stays in the name, whatever the ecosystem does with names
+        if let Ok(Ok(g)) = parse_string(&format!("pkg:golang/{joined}/x%2F%2Fy@1")) {
+            for ty in ["golang", "npm", "maven"] {
+                ctx.eval();
+                let st = format!("pkg:{ty}/{joined}/x%2F%2Fy@1");
+                if let Ok(Ok(p)) = parse_typed(&st) {
+                    if p.namespace() != g.namespace() || p.name() != "x//y" {
+                        ctx.violate("C07.segments", "an escape can neither split nor join segments / climb upwards", json!({"string": st, "component": "namespace (typed)"}), format!("{:?} / {:?}", p.namespace(), p.name()), format!("{:?} / \"x//y\"", g.namespace()));
+                    }
+                }
+            }
+        }
         for (which, s) in [("subpath", format!("pkg:t/n#{joined}")), ("namespace", format!("pkg:t/{joined}/n"))] {
             ctx.eval();
             let is_sub = which == "subpath";
